@@ -299,6 +299,18 @@ def case_shuffle(ctx, rng, idx):
             return {"fn": "random_shuffle_all_orders" if all_orders else "random_shuffle", "object": S0.describe(), "size": None if all_orders else size,
                     "p": p, "inplace": repr(inplace), "preserve_degree": preserve, "seed": seed, "extra": repr(extra)[:700]}
 
+        inc0 = None
+        if p == 0 and g.get_edges():
+            # something attached to an incidence (hyperedge, node) of the argument
+            e_ = rng.choice([e for e in g.get_edges() if len(e) > 0] or [None])
+            if e_ is not None:
+                try:
+                    g.set_incidence_metadata(e_, e_[0], {"role": "chair"})
+                    inc0 = dict(g.get_all_incidences_metadata())
+                    S0 = observe(g)
+                except Exception as ex:
+                    ctx.note("incidence-metadata-not-settable:" + type(ex).__name__)
+                    inc0 = None
         pyrandom.seed(rng.randrange(10**6))
         if seed is None:
             np.random.seed(rng.randrange(10**6))
@@ -336,6 +348,10 @@ def case_shuffle(ctx, rng, idx):
             ctx.check("C14:shuffle", len(out_s) <= len(in_s), f"C14:{name}:number-of-hyperedges-grew", lambda: wit(s))
         if p == 0:
             ctx.check("C14:shuffle", Sres.same(S0), f"C14:{name}:p=0-changed-hypergraph:" + ",".join(Sres.diff(S0)), lambda: wit(Sres.describe()))
+            if inc0 is not None:
+                res_obj = g if inplace else r
+                inc1 = call(lambda: dict(res_obj.get_all_incidences_metadata()))
+                ctx.check("C14:shuffle", inc1 == inc0, f"C14:{name}:p=0-changed-incidence-metadata", lambda: wit((inc0, inc1)))
         # hook-level: replacement nodes come only from the hyperedges actually rewired
         for rec in seen:
             pool = set().union(*[set(rec["cur"][i]) for i in rec["idx"]]) if rec["idx"] else set()
